@@ -77,6 +77,7 @@ SampleOK(e, j, f, ck, c, kf) ==
 
 \* the observations logged with event e against the state (f, hb, ck, bk, c, sg, b, kf)
 Observed(e, f, hb, ck, bk, c, sg, b, kf) ==
+    /\ C("observations-logged", Len(e.obs) = cfg.n)
     /\ C("reference-trained-on-implied-set", e.refset = c /\ e.refseg = sg)
     /\ C("state-well-formed", e.st.ok)
     \* is_fitted(): with the speed-up a classifier fitted before __init__ is
